@@ -7,6 +7,7 @@ mod select;
 mod builder;
 mod address;
 mod sendall;
+mod sets;
 
 fn main() {
     let argv: Vec<String> = std::env::args().collect();
@@ -24,6 +25,7 @@ fn main() {
         "builder" => builder::main(&a),
         "address" => address::main(&a),
         "sendall" => sendall::main(&a),
+        "sets" => sets::main(&a),
         d => {
             eprintln!("unknown driver {}", d);
             std::process::exit(2);
